@@ -22,7 +22,7 @@ import (
 // lb.ServeHTTP.
 
 type ahEvent struct {
-	K string `json:"k"` // eject | readmit | adv | add | remove | observed | other
+	K string `json:"k"` // eject | readmit | adv | add | remove | observed | other | strategy (D = name)
 	I int    `json:"i,omitempty"`
 	D string `json:"d,omitempty"`
 }
@@ -31,8 +31,8 @@ var ahEjectFor = []time.Duration{time.Second, 30 * time.Second, 10 * time.Minute
 
 func TestC06AffinityAfterHistory(t *testing.T) {
 	sub := lab.Sub("affinity-after-history", "rapid, virtual time: strategy in {ip_hash, ip_hash_consistent}, pool 2..10 (one case in twelve: 64/65/66/100/130), 1..4 observed clients (2..4 request variants each); history of 3..25 events: "+
-		"eject(i, 1s|30s|10m), re-admit (time passes beyond the window), advance, add, remove, request of an observed client (one time in three followed by the ejection of the very backend that served it), request of another client; then, with the eligible "+
-		"set stable, every observed client sends all its variants twice, interleaved with each other and with other clients, through lb.NextBackend or lb.ServeHTTP(L1); "+
+		"eject(i, 1s|30s|10m), re-admit (time passes beyond the window), advance, add, remove, request of an observed client (one time in three followed by the ejection of the very backend that served it), request of another client, selection of a strategy by the operator (lb.SetStrategy: the case's own again or any of the five; events then run under whatever is selected); then, back under the case's strategy and with the eligible "+
+		"set stable, every observed client sends all its variants twice, interleaved with each other and with other clients, through lb.NextBackend or lb.ServeHTTP(L1), and before one window request in eight the operator re-selects the strategy (the active one again, or another one and back with 0..2 requests of other clients while away; members and ejections untouched, every judged request is sent under the case's strategy); "+
 		"oracle (window only): one backend per client, every choice an eligible member; non-trivial = >=2 eligible backends in the window and the history changed the eligible set "+
 		"after an observed client had already been served")
 	sub.NontrivialFloor(0.5)
@@ -40,6 +40,7 @@ func TestC06AffinityAfterHistory(t *testing.T) {
 	sub.Floor("ejected-in-window", 0.2)
 	sub.Floor("membership-changed", 0.3)
 	sub.Floor("observed-then-health-change", 0.5)
+	sub.Floor("strategy-reselected-in-window", 0.4)
 	lab.Check(t, sub, 2500, 60000, func(rt *rapid.T) {
 		strategy := rapid.SampledFrom(hashStrategies).Draw(rt, "strategy")
 		via := rapid.SampledFrom([]string{"next", "serve"}).Draw(rt, "via")
@@ -60,7 +61,7 @@ func TestC06AffinityAfterHistory(t *testing.T) {
 		nev := rapid.IntRange(3, 25).Draw(rt, "events")
 		var evs []ahEvent
 		var viol string
-		var nReadmit, nMember, nEligibleWin, nMembersWin int
+		var nReadmit, nMember, nEligibleWin, nMembersWin, nSwitchHist, nSwitchWin int
 		changedAfterObserved := false
 		rapid.SyncTest(rt, func(rt *rapid.T) {
 			p, err := newPool(strategy, n0)
@@ -92,6 +93,16 @@ func TestC06AffinityAfterHistory(t *testing.T) {
 				s, _ := genRequestFor(rt, a)
 				p.pick(s, via)
 			}
+			// the strategy the operator has selected right now (lb.SetStrategy = POST /v1/strategy). A
+			// (re)selection leaves members and ejection windows alone: the eligible set is unchanged by it.
+			current := strategy
+			setStrategy := func(name string) {
+				if err := p.setStrategy(name); err != nil {
+					panic("harness: SetStrategy(" + name + "): " + err.Error())
+				}
+				current = name
+				evs = append(evs, ahEvent{K: "strategy", D: name})
+			}
 			for e := 0; e < nev; e++ {
 				var ej []int
 				for i, n := range p.names {
@@ -99,7 +110,7 @@ func TestC06AffinityAfterHistory(t *testing.T) {
 						ej = append(ej, i)
 					}
 				}
-				switch k := rapid.SampledFrom([]int{0, 5, 1, 5, 2, 6, 0, 5, 1, 3, 4, 6, 5}).Draw(rt, "ev"); {
+				switch k := rapid.SampledFrom([]int{0, 5, 1, 5, 2, 6, 0, 5, 1, 3, 4, 6, 5, 7}).Draw(rt, "ev"); {
 				case k == 0: // eject
 					i := rapid.IntRange(0, len(p.names)-1).Draw(rt, "i")
 					d := rapid.SampledFrom(ahEjectFor).Draw(rt, "d")
@@ -145,6 +156,13 @@ func TestC06AffinityAfterHistory(t *testing.T) {
 				case k == 6:
 					evs = append(evs, ahEvent{K: "other"})
 					other()
+				case k == 7: // the operator selects a strategy: the case's own (again, or back to it) half of the time, else any of the five
+					name := strategy
+					if rapid.Bool().Draw(rt, "elsewhere") {
+						name = rapid.SampledFrom(allStrategies).Draw(rt, "strategy_to")
+					}
+					setStrategy(name)
+					nSwitchHist++
 				default: // request of an observed client
 					c := rapid.IntRange(0, nc-1).Draw(rt, "c")
 					v := rapid.IntRange(0, len(variants[c])-1).Draw(rt, "v")
@@ -176,6 +194,10 @@ func TestC06AffinityAfterHistory(t *testing.T) {
 				sweep()
 				healthChange()
 			}
+			// the window runs under the case's strategy
+			if current != strategy {
+				setStrategy(strategy)
+			}
 			nMembersWin, nEligibleWin = len(p.names), len(p.names)-len(p.ejected)
 			// window: every variant of every observed client twice, in a drawn order, others in between
 			type item struct{ c, v int }
@@ -191,6 +213,21 @@ func TestC06AffinityAfterHistory(t *testing.T) {
 			for _, it := range items {
 				if rapid.IntRange(0, 2).Draw(rt, "interleave") == 0 {
 					other()
+				}
+				// between two window requests the operator re-selects the strategy: the active one again, or
+				// another one and back (traffic of other clients while away). The eligible set stays as it is,
+				// and every judged request is sent under the case's strategy.
+				switch rapid.IntRange(0, 15).Draw(rt, "win_switch") {
+				case 0:
+					setStrategy(strategy)
+					nSwitchWin++
+				case 1:
+					setStrategy(rapid.SampledFrom(awayStrategies(strategy)).Draw(rt, "away"))
+					for j, m := 0, rapid.IntRange(0, 2).Draw(rt, "away_traffic"); j < m; j++ {
+						other()
+					}
+					setStrategy(strategy)
+					nSwitchWin++
 				}
 				s := variants[it.c][it.v]
 				name, _ := p.pick(s, via)
@@ -219,6 +256,12 @@ func TestC06AffinityAfterHistory(t *testing.T) {
 		}
 		if changedAfterObserved {
 			labels = append(labels, "observed-then-health-change")
+		}
+		if nSwitchHist > 0 {
+			labels = append(labels, "strategy-selected-in-history")
+		}
+		if nSwitchWin > 0 {
+			labels = append(labels, "strategy-reselected-in-window")
 		}
 		sub.Case(map[string]any{"strategy": strategy, "n0": n0, "clients": addrs, "variants": variants, "events": evs, "via": via},
 			nEligibleWin >= 2 && changedAfterObserved, labels...)
